@@ -357,3 +357,58 @@ package node
 //@ func isUnrecoveryError(err error) bool
 //@   requires err != nil
 //@   ensures result ==> strHasPrefix(errText(err), "IO error: No space left on device")
+
+//@ property C07
+
+// ---- apply batches: commands that share one engine write must be independent of each other ----
+// A command joins the open batch only if it touches exactly one key (its primary key args[1]) and no earlier
+// command of the batch touched that key: handlers read the store, not the pending batch, so two commands on one
+// key inside a batch would make replies and data depend on how the log was cut into batches.
+//@ spec batchableWrite(cmd string) bool
+//@ extern github.com/youzan/ZanRedisDB/rockredis.IsBatchableWrite func(cmd string) bool
+//@   ensures result == batchableWrite(cmd)
+//@ func (bo *kvbatchOperator) IsBatchable(cmdName string, pk string, args [][]byte) bool
+//@   requires bo != nil
+//@   ensures result ==> batchableWrite(cmdName) && !in(pk, bo.dupCheckMap) && len(bo.batchReqIDList) < maxDBBatchCmdNum
+//@   ensures result && cmdName == "del" ==> len(args) <= 2
+//@ func (bo *kvbatchOperator) AddBatchKey(pk string)
+//@   requires bo != nil && bo.dupCheckMap != nil
+//@   ensures in(pk, bo.dupCheckMap)
+//@   ensures forall k string :: old(in(k, bo.dupCheckMap)) ==> in(k, bo.dupCheckMap)
+//@   modifies bo.dupCheckMap
+//@ func (bo *kvbatchOperator) IsBatched() bool
+//@   requires bo != nil
+//@   ensures result == bo.batching
+//@ func (bo *kvbatchOperator) AddBatchRsp(reqID uint64, v interface{})
+//@   requires bo != nil
+//@   ensures len(bo.batchReqIDList) == old(len(bo.batchReqIDList)) + 1 && len(bo.batchReqRspList) == old(len(bo.batchReqRspList)) + 1
+//@   modifies *
+
+// ---- the apply loop hands every handler the timestamp carried in the log, nothing else ----
+// reqTs is the batch timestamp, or the entry's own header timestamp when the batch carries none; it must not be
+// derived from the wall clock or from in-memory state of the state machine (which a restart does not restore)
+//@ noeffect (*github.com/youzan/ZanRedisDB/node.kvStoreSM).Debugf (*github.com/youzan/ZanRedisDB/node.kvStoreSM).Infof (*github.com/youzan/ZanRedisDB/node.kvStoreSM).Errorf (*github.com/youzan/ZanRedisDB/common.LevelLogger).Level
+//@ noeffect (github.com/youzan/ZanRedisDB/pkg/wait.Wait).Trigger (github.com/youzan/ZanRedisDB/pkg/wait.Wait).IsRegistered (*github.com/youzan/ZanRedisDB/node.BatchInternalRaftRequest).String (*github.com/youzan/ZanRedisDB/node.InternalRaftRequest).String
+//@ noeffect (*github.com/prometheus/client_golang/prometheus.CounterVec).With (github.com/prometheus/client_golang/prometheus.Counter).Inc
+//@ noeffect (*github.com/youzan/ZanRedisDB/metric.TopNHot).HitWrite (*github.com/youzan/ZanRedisDB/metric.WriteStats).UpdateSizeStats (*github.com/youzan/ZanRedisDB/metric.WriteStats).UpdateWriteStats github.com/youzan/ZanRedisDB/slow.LogSlowDBWrite github.com/youzan/ZanRedisDB/slow.NewSlowLogInfo (*github.com/youzan/ZanRedisDB/node.SlowLimiter).RecordSlowCmd
+//@ noeffect github.com/youzan/ZanRedisDB/node.IsSyncerOnly github.com/youzan/ZanRedisDB/node.GetSyncedOnlyChangedTs github.com/youzan/ZanRedisDB/node.MaybeConflictLogDisabled github.com/youzan/ZanRedisDB/common.ExtractTable github.com/youzan/ZanRedisDB/common.CutNamesapce
+//@ noeffect (*github.com/youzan/ZanRedisDB/node.kvStoreSM).preCheckConflict (*github.com/youzan/ZanRedisDB/node.kvStoreSM).handleCustomRequest (*github.com/youzan/ZanRedisDB/node.kvStoreSM).handleSchemaUpdate (*github.com/youzan/ZanRedisDB/node.SchemaChange).Unmarshal (*github.com/youzan/ZanRedisDB/common.SMCmdRouter).GetInternalCmdHandler
+//@ interface (github.com/youzan/ZanRedisDB/node.IBatchOperator).IsBatchable func(b IBatchOperator, cmdName string, pk string, args [][]byte) bool
+//@ interface (github.com/youzan/ZanRedisDB/node.IBatchOperator).IsBatched func(b IBatchOperator) bool
+//@ interface (github.com/youzan/ZanRedisDB/node.IBatchOperator).BeginBatch func(b IBatchOperator) error
+//@ interface (github.com/youzan/ZanRedisDB/node.IBatchOperator).CommitBatch func(b IBatchOperator)
+//@ interface (github.com/youzan/ZanRedisDB/node.IBatchOperator).AddBatchKey func(b IBatchOperator, pk string)
+//@ interface (github.com/youzan/ZanRedisDB/node.IBatchOperator).AddBatchRsp func(b IBatchOperator, id uint64, v interface{})
+//@ interface (github.com/youzan/ZanRedisDB/node.IBatchOperator).AbortBatchForError func(b IBatchOperator, err error)
+// an apply handler taken from the router (any registered local*Command)
+//@ extern funcval:github.com/youzan/ZanRedisDB/common.InternalCommandFunc func(cmd redcon.Command, ts int64) (interface{}, error)
+//@ extern github.com/absolute8511/redcon.Parse func(raw []byte) (redcon.Command, error)
+//@   ensures result1 == nil ==> len(result0.Args) >= 2
+//@ func (kvsm *kvStoreSM) ApplyRaftRequest(isReplaying bool, batch IBatchOperator, reqList BatchInternalRaftRequest, term uint64, index uint64, stop chan struct{}) (bool, error)
+//@   requires kvsm != nil && kvsm.router != nil && batch != nil && kvsm.w != nil
+//@   callassert h arg1 == ite(reqList.Timestamp != 0, reqList.Timestamp, req.Header.Timestamp)
+//@   modifies *
+//@   loop 1
+//@   invariant true
+//@   loop 2
+//@   invariant true
